@@ -104,3 +104,52 @@ def alpha_rename(src: str, suffix: str = "_rn", annotate: bool = True) -> Tuple[
             count += 1
         lines[ln - 1] = raw.decode("utf-8")
     return "".join(lines), count
+
+
+def interleave_noops(src: str) -> str:
+    """A second behaviour-preserving rewrite: a no-op statement (`pass`) after every statement of every function body
+    (what a maintainer's added log line looks like to a rule that relies on two statements being adjacent). The
+    result is re-generated from the tree (comments are lost, which no rule reads)."""
+    tree = ast.parse(src)
+
+    class T(ast.NodeTransformer):
+        def __init__(self):
+            self.depth = 0
+
+        def _blocks(self, node):
+            for fld in ("body", "orelse", "finalbody"):
+                blk = getattr(node, fld, None)
+                if isinstance(blk, list) and blk and all(isinstance(x, ast.stmt) for x in blk):
+                    out = []
+                    for i, st in enumerate(blk):
+                        out.append(st)
+                        is_doc = i == 0 and fld == "body" and isinstance(node, (ast.FunctionDef, ast.AsyncFunctionDef)) and isinstance(st, ast.Expr) and isinstance(st.value, ast.Constant) and isinstance(st.value.value, str)
+                        if not is_doc and not isinstance(st, (ast.Return, ast.Raise, ast.Continue, ast.Break, ast.Global, ast.Nonlocal)):
+                            out.append(ast.copy_location(ast.Pass(), st))
+                    setattr(node, fld, out)
+            if isinstance(node, ast.Try):
+                for h in node.handlers:
+                    self._blocks(h)
+
+        def generic_visit(self, node):
+            super().generic_visit(node)
+            if self.depth > 0 and isinstance(node, (ast.If, ast.For, ast.AsyncFor, ast.While, ast.With, ast.AsyncWith, ast.Try)):
+                self._blocks(node)
+            return node
+
+        def visit_FunctionDef(self, node):
+            self.depth += 1
+            self.generic_visit(node)
+            self._blocks(node)
+            self.depth -= 1
+            return node
+
+        visit_AsyncFunctionDef = visit_FunctionDef
+
+        def visit_ClassDef(self, node):
+            d, self.depth = self.depth, 0
+            self.generic_visit(node)
+            self.depth = d
+            return node
+
+    return ast.unparse(ast.fix_missing_locations(T().visit(tree))) + "\n"
